@@ -548,6 +548,66 @@ def run_attr_correspondence(ck, q):
     return mism
 
 
+# ------------------------------------------------------- tie H (2b): float rounding on the attribute path
+def boundary_doubles(rng, n_random):
+    """binary64 patterns around everything that matters for (float)double."""
+    out = []
+    d2b = lambda x: struct.unpack("<Q", struct.pack("<d", x))[0]  # noqa: E731
+    for x in (0.0, -0.0, 0.1, 1 / 3, 1.0, 16777216.0, 16777217.0, 16777219.0, 1e40, -1e40, 1e-50, 3.4028234663852886e38,
+              3.4028235677973366e38, 2.0**-126, 2.0**-149, 2.0**-150, 2.0**-151, 2.0**127, 2.0**128, float("inf"), float("-inf")):
+        b = d2b(x)
+        out += [b, b + 1, b - 1 if b else b, b ^ (1 << 63)]
+    out += [0x7FF0000000000001, 0x7FF8000000000000, 0xFFF4000012345678, 0x7FF00000FFFFFFFF, 0x7FFFFFFFFFFFFFFF, 1, 0x000FFFFFFFFFFFFF]
+    for _ in range(n_random):
+        kind = rng.randrange(5)
+        sign = rng.getrandbits(1) << 63
+        if kind == 0:      # exactly half way between two float32 values (normal range), and one ulp either side
+            e = rng.randrange(897, 1151)
+            m = (rng.getrandbits(23) << 29) | (1 << 28)
+            b = sign | (e << 52) | m
+            out += [b, b + 1, b - 1]
+        elif kind == 1:    # the subnormal range of float32 and below
+            e = rng.randrange(840, 898)
+            out.append(sign | (e << 52) | (rng.getrandbits(52) if rng.random() < 0.7 else (rng.getrandbits(20) << 32)))
+        elif kind == 2:    # around overflow
+            out.append(sign | (rng.randrange(1148, 1156) << 52) | (rng.choice([0, (1 << 52) - 1, 0xFFFFFFE000000, 0xFFFFFFF000000]) ^ rng.getrandbits(3)))
+        elif kind == 3:    # NaN payloads
+            out.append(sign | (0x7FF << 52) | rng.randrange(1, 1 << 52))
+        else:
+            out.append(rng.getrandbits(64))
+    return out
+
+
+def run_float_correspondence(ck):
+    import numpy as np
+
+    rng = ck.rng
+    bits = boundary_doubles(rng, ck.pick(20000, 400000))
+    got = ck.driver().ask_many("C10", [{"op": "r32", "bits": bits}])[0]["f32"]
+    with np.errstate(all="ignore"):
+        exp = np.array(bits, dtype=np.uint64).view(np.float64).astype(np.float32).view(np.uint32).tolist()
+    bad = [(hex(b), hex(g), hex(e)) for b, g, e in zip(bits, got, exp) if not same_words("float32", [g], [e])]
+    ints = [0, 1, -1, 2**53, 2**53 + 1, 2**53 + 2, 2**53 + 3, -(2**53 + 1), 2**63, 2**64 - 1, 2**1023,
+            2**1024 - 2**970 - 1, 2**1024 - 2**970, 2**1024, 10**400, 2**52 + 1, 2**100 + 2**47, 2**100 + 2**47 + 1]
+    ints += [rng.getrandbits(rng.randrange(1, 1100)) * rng.choice([1, -1]) for _ in range(ck.pick(2000, 40000))]
+    got_i = ck.driver().ask_many("C10", [{"op": "i2d", "ints": ints}])[0]["f64"]
+
+    def real(n):
+        try:
+            return struct.unpack("<Q", struct.pack("<d", float(n)))[0]
+        except OverflowError:
+            return None
+
+    bad_i = [(n, g, real(n)) for n, g in zip(ints, got_i) if g != real(n)]
+    ck.count(("float-corr", "r32"), len(bits))
+    ck.count(("float-corr", "i2d"), len(ints))
+    for b in bad[:3]:
+        ck.broken("correspondence", "C10 r32 vs numpy float64->float32", f"double {b[0]}: model {b[1]} numpy {b[2]}")
+    for b in bad_i[:3]:
+        ck.broken("correspondence", "C10 i2d vs Python float(int)", f"int {str(b[0])[:60]}: model {b[1]} python {b[2]}")
+    ck.cov["float_correspondence"] = {"doubles": len(bits), "ints": len(ints), "mismatches": len(bad) + len(bad_i)}
+
+
 # ------------------------------------------------------------------- real capture sites (shared)
 class Site:
     """A real constructor that receives a caller-owned mutable object.
@@ -1499,6 +1559,34 @@ def run_oracle(ck):
             bad = f"raised {type(e).__name__}: {str(e)[:150]}"
         if bad:
             ck.failure(f"attr-kind:{desc.split('(')[0]}:{exp['name']}", f"{desc}: {bad}", {"kind": "attr_kind", "index": i, "desc": desc})
+    # float attributes on boundary doubles: the embedded float32 must be the double rounded once (numpy is the reference)
+    import spox.opset.ai.onnx.v17 as _op
+    from spox import Tensor as _T, argument as _arg
+    import numpy as _np
+
+    _x = _arg(_T(_np.float32, (2,)))
+    fbits = boundary_doubles(rng, ck.pick(60, 1500))
+    for k in range(0, len(fbits), 8):
+        chunk = [struct.unpack("<d", struct.pack("<Q", b))[0] for b in fbits[k:k + 8]]
+        stats["attr_kind"] += 1
+        ck.count(("float-attr", k))
+        try:
+            y = _x
+            for v in chunk:
+                y = _op.leaky_relu(y, alpha=v)
+            z = _op.constant(value_floats=chunk)
+            g = W.graph_parts(W.graph_of_model(_build_bytes(_op.add(y, _op.cast(_op.reduce_sum(z, keepdims=False), to=_np.float32)), (_x,))))
+            alphas = [a["f"] for n in g["nodes"] if n["op_type"] == "LeakyRelu" for a in n["attrs"] if a["name"] == "alpha"]
+            floats = next(a["floats"] for n in g["nodes"] if n["op_type"] == "Constant" for a in n["attrs"] if a["name"] == "value_floats")
+        except Exception as e:  # noqa: BLE001
+            ck.failure("attr-float:raises", f"float attributes {chunk}: {type(e).__name__}: {str(e)[:120]}", {"kind": "attr_float", "bits": fbits[k:k + 8]})
+            continue
+        want = [f32_bits_of_double(v) for v in chunk]
+        for name, gotl in (("leaky_relu.alpha", alphas), ("constant.value_floats", floats)):
+            if not same_words("float32", gotl, want):
+                i = next((i for i, (a, b) in enumerate(zip(gotl, want)) if not same_words("float32", [a], [b])), 0)
+                ck.failure(f"attr-float:{name}", f"{name}={chunk[i]!r} embedded as {gotl[i]:#x}, the double rounded once to float32 is {want[i]:#x}",
+                           {"kind": "attr_float", "bits": [fbits[k + i]]})
     for i, (desc, build, d, shape, data) in enumerate(const_prop_cases()):
         stats["attr_kind"] += 1
         ck.count(("const-prop", desc))
@@ -1576,6 +1664,7 @@ def run(ck: core.Check):
     q = platform_quietens()
     for facet, fn in (("fromArray/toArray", lambda: run_enc_correspondence(ck, q)),
                       ("Attr constructors", lambda: run_attr_correspondence(ck, q)),
+                      ("float rounding", lambda: run_float_correspondence(ck)),
                       ("capture", lambda: run_capture_correspondence(ck, info) if info else None)):
         try:
             fn()
@@ -1625,6 +1714,25 @@ def replay(ck: core.Check, doc) -> bool:
             bad = f"raised {type(e).__name__}: {e}"
         print(f"{desc}: {bad or 'ok'}")
         return bool(bad)
+    if kind == "attr_float":
+        import numpy as np
+
+        import spox.opset.ai.onnx.v17 as op
+        from spox import Tensor, argument
+
+        x = argument(Tensor(np.float32, (2,)))
+        bad = False
+        for b in case["bits"]:
+            v = struct.unpack("<d", struct.pack("<Q", b))[0]
+            g = W.graph_parts(W.graph_of_model(_build_bytes(op.leaky_relu(x, alpha=v), (x,))))
+            got = g["nodes"][0]["attrs"][0]["f"]
+            z = W.graph_parts(W.graph_of_model(_build_bytes(op.constant(value_floats=[v]))))
+            got2 = z["nodes"][0]["attrs"][0]["floats"][0]
+            want = f32_bits_of_double(v)
+            ok = same_words("float32", [got], [want]) and same_words("float32", [got2], [want])
+            print(f"{v!r}: alpha {got:#x}, value_floats {got2:#x}, expected {want:#x}: {'ok' if ok else 'DIFFERENT'}")
+            bad = bad or not ok
+        return bad
     if kind == "const_prop":
         desc, build, d, shape, data = next(c for c in const_prop_cases() if c[0] == case["desc"])
         try:
